@@ -507,7 +507,7 @@ def build_configs(tier, seed):
     # --- 1-D ------------------------------------------------------------------------------------------------
     for el in ['LineP1', 'LineP2', 'LineMini', 'LinePp3'] + ([] if quick else ['LineP0']):
         for f in (['nonsym', 'wx'] if quick else scalar_forms):
-            add('line3perm', el, f, 'cell', canary=(f == 'nonsym'))
+            add('line3perm', el, f, 'cell', canary=(f == 'nonsym' and el != 'LineP0'))     # (P0: the integrand u v' vanishes identically)
         add('line3', el, 'mass', 'facet')
         add('line3', el, 'mass', 'ifacet-0')
     add('line2', 'LineHermite', 'nonsym', 'cell', free='none')
@@ -542,7 +542,6 @@ def build_configs(tier, seed):
         add('hex1', 'Hex2', 'nonsym', 'cell', free='none')
         add('hex1', 'Hex0', 'mass', 'cell', free=[0, 1])
         add('hex1', 'HexRT1', 'hdiv', 'cell', free='none')
-        add('wedge1', 'Wedge1', 'wx', 'cell', free=[0])
     for (mesh, elem, kind) in [('tri2', 'TriP1', 'cell'), ('tri2', 'TriP2', 'facet'), ('line3perm', 'LineP2', 'cell')]:
         cfgs.append(dict(name='param-forms/%s/%s/%s' % (mesh, elem, kind), fn=param_forms_config, kw=dict(mesh=mesh, elem=elem, kind=kind), opts=dict(timeout=600)))
     # --- trilinear forms: three different local sizes ---------------------------------------------------------------------------
